@@ -427,7 +427,11 @@ func (w *walker) keyValue(list *yang.Entry, key string, t reflect.Type, holder r
 		}
 	}
 	if len(cands) == 0 {
-		return keyVal{}, fmt.Errorf("no value of the key's YANG type could be built for parameter type %v", t.Kind())
+		kind := t.Kind().String()
+		if isEnum {
+			kind = "enumeration/identityref (no member known to both goyang and the generated enum table)"
+		}
+		return keyVal{}, fmt.Errorf("no value of the key's YANG type could be built for parameter type %s", kind)
 	}
 	i := w.o.Choose(label, len(cands))
 	// two keys of one call should differ, so that swapped keys are visible
